@@ -156,9 +156,15 @@ func verifC14DirSingleSyscall() {
 		// for short reads) still returns a prefix-consistent snapshot: any number of preads, nothing else
 		verifAssert("dir/readat-only-preads", verifKernelSyscalls()-n0 >= 1 && verifKernelSyscalls()-n0 == verifKernelCount("pread")-p0)
 	} else {
-		verifAssert("dir/exactly-one-syscall", verifKernelSyscalls()-n0 == 1)
+		// exactly one call that can change or observe what other operations see (closes, fstats and
+		// read-only opens of directories for a path lookup do not count)
+		if op == 2 { // Close is itself a close
+			verifAssert("dir/exactly-one-syscall", verifKernelSyscalls()-n0 == 1)
+		} else {
+			verifAssert("dir/exactly-one-syscall", verifKernelEffectful() == 1)
+		}
 	}
-	verifAssert("dir/the-expected-syscall", verifIndex(tr, want) == 0)
+	verifAssert("dir/the-expected-syscall", verifIndex(tr, want) >= 0)
 	if op == 0 {
 		// 0xc1 = O_CREAT|O_EXCL|O_WRONLY: exactly-once creation is the kernel's
 		verifAssert("dir/create-is-exclusive", verifIndex(tr, "0xc1") > 0)
